@@ -78,7 +78,8 @@ ARCH = [
                                                               {"df": _t(3, 2, "s"), "body": {"col_rel_width": [1, 1, 2]}, "headers": "default"}]},   # 14 multi, explicit widths, no footnote
     {"kind": "table", "sections": [{"df": _t(3, 5, "w"), "body": {"col_rel_width": [2, 1, 1]}, "headers": "default"}]},          # 15 3 col explicit widths
     # 16 / 17: the same long texts at 8.5 pt (one line each, one page) and at 9 pt (two lines each, two pages): measurement caches
-    {"kind": "table", "page": {"nrow": 8}, "sections": [{"df": _wide(6), "body": {"text_font_size": 8.5}, "headers": [{"text": ["@H0.0", "@H0.1"]}]}]},
+    # (16 has no column header: a header label would be measured at 9 pt before the body in every process, fresh or not)
+    {"kind": "table", "page": {"nrow": 8}, "sections": [{"df": _wide(6), "body": {"text_font_size": 8.5}, "headers": "none"}]},
     {"kind": "table", "page": {"nrow": 8}, "sections": [{"df": _wide(6), "body": {"text_font_size": 9}, "headers": [{"text": ["@H0.0", "@H0.1"]}]}]},
     # 19: alias colour names (one RGB value, several names) far apart in the master table with another colour between them
     {"kind": "table", "sections": [{"df": _t(3, 2), "body": {"text_color": ["gray", "grey", "green"], "text_background_color": ["gray100", "white", "gray50"]},
@@ -106,6 +107,8 @@ ARCH = [
 _PNG2 = (b"\x89PNG\r\n\x1a\n" + (13).to_bytes(4, "big") + b"IHDR" + (12).to_bytes(4, "big") + (5).to_bytes(4, "big")
          + b"\x08\x02\x00\x00\x00" + bytes(8) + b"SECOND VERSION OF THE PLOT").hex()
 RAISES = {6}
+# archetype pairs built to interfere through measuring / colour / layout state: always in the quick tier
+KEY_PAIRS = {(16, 17), (17, 16), (1, 18), (18, 1), (21, 22), (22, 21), (4, 13), (13, 4), (19, 8), (8, 19), (23, 10), (10, 23)}
 PLAIN_BODY = {0, 9, 12, 10, 15, 20, 21, 22, 23}         # single tables whose body/header specs reference no columns
 SHARE_SETS = [["page"], ["body"], ["footnote"], ["title"], ["header"], ["page", "footnote", "source", "title"], ["body", "header"],
               ["subline"], ["subline", "page_header", "page_footer"]]
@@ -378,7 +381,7 @@ def enumerate_cases(tier):
             yield {"history": [_construct(a), {"op": "encode", "doc": 0}, {"op": "set_nrow", "doc": 0, "nrow": 3}]}
             yield {"history": [_construct(a), {"op": "set_nrow", "doc": 0, "nrow": 5}, {"op": "encode", "doc": 0}, {"op": "set_nrow", "doc": 0, "nrow": 40}]}
     for a, b in itertools.product(archs, archs):
-        if tier == "quick" and (a * 5 + b) % 3:
+        if tier == "quick" and (a * 5 + b) % 3 and (a, b) not in KEY_PAIRS:
             continue
         yield {"history": [_construct(a), {"op": "encode", "doc": 0}, _construct(b)]}
     for a, b in itertools.product(sorted(PLAIN_BODY) + [1, 7, 2, 4, 14, 3], sorted(PLAIN_BODY) + [1, 7, 2, 13]):
